@@ -28,7 +28,7 @@ RULE = ('family = one database description (1-3 merged parts, 0-3 datasets of 0-
         'is alive; invalid descriptions are rejected. Non-trivial = a lifetime / file / '
         'mutation event happened between two requests; distinct = distinct (description, '
         'history).')
-PROBES = ['two_database_objects_with_common_names', 'alias_only_in_later_part', 'extra_top_level_scalar_with_merge',
+PROBES = ['duplicate_between_two_later_parts', 'two_database_objects_with_common_names', 'alias_only_in_later_part', 'extra_top_level_scalar_with_merge',
           'request_after_gc_rebuilt', 'identity_while_held', 'file_removed_after_load',
           'unpickled_database_answered', 'invalid_description_rejected']
 BUDGET = {
@@ -86,18 +86,29 @@ def gen_db(rng):
         parts[0][rng.choice(['meta', 'version'])] = rng.choice(
             ['v1', 3, {'x': 1}, [1, 2], None])
     invalid = None
-    if nparts > 1 and rng.random() < 0.2:
-        kind = rng.choice(['dup_dataset', 'dup_alias', 'alias_vs_dataset'])
-        first_ds = [n for n in parts[0]['datasets']]
-        if kind == 'dup_dataset' and first_ds:
-            parts[-1]['datasets'][first_ds[0]] = {'ex_dup': {'v': -1}}
+    if nparts > 1 and rng.random() < 0.25:
+        # a name defined in ANY earlier part (also a non-first one) is defined
+        # again - as dataset or as alias - in a later part
+        kind = rng.choice(['dup_dataset', 'dup_alias', 'alias_vs_dataset', 'dataset_vs_alias'])
+        i = rng.randrange(0, nparts - 1)
+        j = rng.randrange(i + 1, nparts)
+        ds_i = list(parts[i]['datasets'])
+        al_i = list(parts[i].get('alias', {}))
+        some_ds = ds_names[:1]
+        if kind == 'dup_dataset' and ds_i:
+            parts[j]['datasets'][rng.choice(ds_i)] = {'ex_dup': {'v': -1}}
             invalid = kind
-        elif kind == 'dup_alias' and parts[0].get('alias'):
-            parts[-1].setdefault('alias', {})[next(iter(parts[0]['alias']))] = list(first_ds[:1])
+        elif kind == 'dup_alias' and al_i:
+            parts[j].setdefault('alias', {})[rng.choice(al_i)] = list(some_ds)
             invalid = kind
-        elif kind == 'alias_vs_dataset' and first_ds:
-            parts[-1].setdefault('alias', {})[first_ds[0]] = list(first_ds[:1])
+        elif kind == 'alias_vs_dataset' and ds_i:
+            parts[j].setdefault('alias', {})[rng.choice(ds_i)] = list(some_ds)
             invalid = kind
+        elif kind == 'dataset_vs_alias' and al_i:
+            parts[j]['datasets'][rng.choice(al_i)] = {'ex_dup2': {'v': -2}}
+            invalid = kind
+        if invalid:
+            invalid = '%s:part%d_vs_part%d' % (invalid, i, j)
     return parts, invalid
 
 
@@ -236,11 +247,13 @@ def run(case):
                 err = e
             if not ok_merge:
                 if err is None:
-                    bad('invalid_description_accepted', 'invalid_description_accepted:' + str(case['invalid']),
+                    bad('invalid_description_accepted', 'invalid_description_accepted:' + str(case['invalid']).split(':')[0],
                         'a description with %s across merged parts was accepted' % case['invalid'])
                 else:
                     probes['invalid_description_rejected'] = 1
-                    fired['invalid_' + str(case['invalid'])] = 1
+                    fired['invalid_' + str(case['invalid']).split(':')[0]] = 1
+                    if case['invalid'] and 'part0' not in str(case['invalid']):
+                        probes['duplicate_between_two_later_parts'] = 1
                 return _finish(case, violations, probes, fired)
             if err is not None:
                 bad('valid_description_rejected', 'valid_description_rejected:%s' % type(err).__name__,
